@@ -147,6 +147,37 @@ Theorem C15_abscissa2_dual2_spline : forall (X : dual2 R), wf2 X ->
                                  + / 2 * (coef1 d1 u * coef1 X v + coef1 d1 v * coef1 X u).
 Proof. exact ppdnev_d2_dual2_spec. Qed.
 
+(* ONE basis function at a dual-number abscissa (bsplev_single_dual / bsplev_single_dual2 with org_k = None): it is
+   the derivative evaluation at order 0; its value is B_i(re X), its sensitivities are B_i'(re X) times the abscissa's,
+   and at second order the stored half-Hessian is B_i' X_uv + 1/2 B_i'' X_u X_v; the names are the abscissa's *)
+Theorem C15_basis_abscissa : forall (X : dual R), wf X -> forall i k t D,
+  bsplev_dual X i k t None = bspldnev_dual X i k t 0 None /\
+  (bsplev_dual X i k t None = Ok D ->
+   exists b db, bsplev (re X) i k t None = Ok b /\ bspldnev (re X) i k t 1 None = Ok db /\
+                wf D /\ vs D = vs X /\ re D = b /\ forall v, coef D v = db * coef X v).
+Proof. intros X WX i k t D. split; [apply bsplev_dual_is_dn|apply bsplev_dual_spec; exact WX]. Qed.
+Theorem C15_basis_abscissa2 : forall (X : dual2 R), wf2 X -> forall i k t D,
+  bsplev_dual2 X i k t None = bspldnev_dual2 X i k t 0 None /\
+  (bsplev_dual2 X i k t None = Ok D ->
+   exists b db d2b, bsplev (re2 X) i k t None = Ok b /\ bspldnev (re2 X) i k t 1 None = Ok db /\
+                    bspldnev (re2 X) i k t 2 None = Ok d2b /\
+                    wf2 D /\ vs2 D = vs2 X /\ re2 D = b /\ (forall v, coef1 D v = db * coef1 X v) /\
+                    forall u v, coef2 D u v = db * coef2 X u v + (/ 2 * d2b) * (coef1 X u * coef1 X v)).
+Proof. intros X WX i k t D. split; [apply bsplev_dual2_is_dn|apply bsplev_dual2_spec; exact WX]. Qed.
+
+(* the vector form PPSpline::bspldnev: one entry per abscissa, entry j = the m-th derivative of basis function i at x_j *)
+Theorem C15_basis_vector : forall {T : Type} {H : Num T} {E : Type} (s : @ppspline T E) xs i m ys,
+  pp_bspldnev s xs i m = Ok ys ->
+  length ys = length xs /\
+  forall j x, nth_error xs j = Some x -> exists y, nth_error ys j = Some y /\ bspldnev x i (pk s) (pt s) m None = Ok y.
+Proof. exact @pp_bspldnev_spec. Qed.
+
+(* == of two splines (PartialEq for PPSpline): same order, same count, same knots, and coefficients both absent or both
+   present and pairwise equal - i.e. equality of the four fields, whenever the coefficient type's == decides equality *)
+Theorem C15_spline_eq : forall {E : Type} (e : E -> E -> bool), (forall x y, e x y = true <-> x = y) ->
+  forall a b : @ppspline R E, pp_eqb e a b = true <-> (pk a = pk b /\ pn a = pn b /\ pt a = pt b /\ pc a = pc b).
+Proof. exact @pp_eqb_spec. Qed.
+
 (* the 3 x 3 table spline kind x abscissa kind of mapped_value: with coefficients present, seven
    cells never return an error and answer in the stated kind (0 float, 1 Dual, 2 Dual2); the cells
    (Dual spline, Dual2 abscissa) and (Dual2 spline, Dual abscissa) are errors *)
@@ -291,3 +322,7 @@ Print Assumptions C15_peval_monomials.
 Print Assumptions C15_poly_coeffs.
 Print Assumptions C15_poly.
 Print Assumptions C15_abscissa2_dual2_spline.
+Print Assumptions C15_basis_abscissa.
+Print Assumptions C15_basis_abscissa2.
+Print Assumptions C15_basis_vector.
+Print Assumptions C15_spline_eq.
